@@ -146,7 +146,21 @@ def run_bdb(case):
 
 
 # ---------------------------------------------------------------------------- public entry points that keep the caller's x order
-def entry_xy(n, seed, order, layout='c'):
+def zero_positions(n, seed, kind):
+    import numpy as np
+    rng = np.random.default_rng(seed + 77)
+    if kind == 'some':
+        return np.sort(rng.choice(np.arange(3, n - 3), size=3, replace=False))
+    if kind == 'many':
+        return np.sort(rng.choice(np.arange(1, n - 1), size=n // 2, replace=False))
+    if kind == 'ends':
+        return np.array([0, 1, n - 2, n - 1])
+    if kind == 'last':
+        return np.array([n - 1])
+    raise KeyError(kind)
+
+
+def entry_xy(n, seed, order, layout='c', zero_w=None, nf=None):
     """x in the requested ORDER (the entry points below do not sort), y = the same function of x plus noise."""
     import numpy as np
     rng = np.random.default_rng(seed)
@@ -165,6 +179,13 @@ def entry_xy(n, seed, order, layout='c'):
         idx = np.concatenate([np.arange(n // 2, n), np.arange(0, n // 2)])
     else:
         idx = np.arange(n)
+    if zero_w:
+        # exactly-zero weights at chosen samples (positions in increasing-x order), optionally with non-finite data THERE
+        z = zero_positions(n, seed, zero_w)
+        w = np.where(w == 0, 1.0, w)
+        w[z] = 0.0
+        if nf:
+            y[z] = {'nan': np.nan, '+inf': np.inf, '-inf': -np.inf}[nf]
     x, y, w = x[idx].copy(), y[idx].copy(), w[idx].copy()
     if layout == 'strided':               # non-contiguous views of larger buffers
         def strided(a):
@@ -182,7 +203,7 @@ def run_entry(job, y_override=None):
     import numpy as np
     from pybaselines import utils, _spline_utils as su, _banded_utils as bu
     kw = dict(job.get('kw', {}))
-    x, y, w, idx = entry_xy(job['n'], job['seed'], job.get('order', 'sorted'), job.get('layout', 'c'))
+    x, y, w, idx = entry_xy(job['n'], job['seed'], job.get('order', 'sorted'), job.get('layout', 'c'), job.get('zero_w'), job.get('nf'))
     if y_override is not None:
         y = y_override(y)
     name = job['entry']
@@ -217,6 +238,20 @@ def run_entry(job, y_override=None):
 
 
 # ---------------------------------------------------------------------------- compiled kernel <-> alternative (fallback) code path
+def nan_aware_diff(a, b):
+    """largest absolute difference where both are finite; inf when the non-finite PATTERNS (NaN / +inf / -inf positions)
+    differ -- IEEE: 0 * NaN = NaN, so a kernel and its fallback must propagate non-finite data identically"""
+    import numpy as np
+    a, b = np.asarray(a, dtype=float), np.asarray(b, dtype=float)
+    if a.shape != b.shape:
+        return float('inf')
+    fa, fb = np.isfinite(a), np.isfinite(b)
+    if not np.array_equal(fa, fb) or not np.array_equal(np.isnan(a), np.isnan(b)) \
+            or not np.array_equal(np.sign(a[~fa & ~np.isnan(a)]), np.sign(b[~fb & ~np.isnan(b)])):
+        return float('inf')
+    return float(np.max(np.abs(a[fa] - b[fa]))) if fa.any() else 0.0
+
+
 def run_pairs(case):
     """Each optionally compiled kernel that has a DIFFERENT fallback implementation, run together with that fallback
     in this process on the same (possibly non-monotone) inputs: largest absolute differences."""
@@ -224,7 +259,7 @@ def run_pairs(case):
     from scipy.interpolate import BSpline
     from scipy import sparse
     from pybaselines import _spline_utils as su
-    x, y, w, idx = entry_xy(case['n'], case['seed'], case['order'], case.get('layout', 'c'))
+    x, y, w, idx = entry_xy(case['n'], case['seed'], case['order'], case.get('layout', 'c'), case.get('zero_w'), case.get('nf'))
     k, nk = case['degree'], case['num_knots']
     res = {}
     basis = su.SplineBasis(x, nk, k)
@@ -253,9 +288,10 @@ def run_pairs(case):
             ab = np.zeros((k + 1, nb), order='F')
             rhs = np.zeros(nb)
             fn(basis.x, knots, k, np.asarray(y, dtype=float), np.asarray(w, dtype=float), ab, rhs, B.data)
-            res['btb:' + name] = float(np.max(np.abs(ab - lower_ref)))
-            res['bty:' + name] = float(np.max(np.abs(rhs - rhs_ref)))
-    res['scale'] = float(max(np.max(np.abs(full)), np.max(np.abs(rhs_ref)), 1.0))
+            res['btb:' + name] = nan_aware_diff(ab, lower_ref)
+            res['bty:' + name] = nan_aware_diff(rhs, rhs_ref)
+    with np.errstate(all='ignore'):
+        res['scale'] = float(max(np.nanmax(np.abs(np.where(np.isfinite(full), full, 0.0))), np.nanmax(np.abs(np.where(np.isfinite(rhs_ref), rhs_ref, 0.0))), 1.0))
     # (3) PSpline.solve_pspline: the arm taken in this process vs the other arm forced on the same object
     outs = {}
     for arm in (True, False):
@@ -264,13 +300,17 @@ def run_pairs(case):
             pass
         ps._use_numba = arm
         try:
-            outs[arm] = np.array(ps.solve_pspline(np.asarray(y, dtype=float), np.asarray(w, dtype=float) + 0.1), dtype=float)
+            ww = np.asarray(w, dtype=float) + (0.0 if case.get('zero_w') else 0.1)
+            with np.errstate(all='ignore'):
+                outs[arm] = np.array(ps.solve_pspline(np.asarray(y, dtype=float), ww), dtype=float)
         except Exception as e:   # noqa
             outs[arm] = type(e).__name__
     if isinstance(outs[True], str) or isinstance(outs[False], str):
-        res['solve_pspline:arms'] = 0.0 if str(outs[True]) == str(outs[False]) else float('inf')
+        res['solve_pspline:arms'] = 0.0 if str(outs[True]) == str(outs[False]) else float('inf')     # outcome kinds
     else:
-        res['solve_pspline:arms'] = float(np.max(np.abs(outs[True] - outs[False])) / max(np.max(np.abs(outs[False])), 1e-300))
+        d = nan_aware_diff(outs[True], outs[False])
+        fin = np.isfinite(outs[False])
+        res['solve_pspline:arms'] = d / max(float(np.max(np.abs(outs[False][fin]))) if fin.any() else 1.0, 1e-300)
     return res
 
 
@@ -355,6 +395,14 @@ def run_oracle(job):
         y0 = np.array(job['y'], dtype=float)
         x = np.arange(len(y0), dtype=float)
     out = {}
+    if job.get('zero_w') and not job.get('entry'):
+        z = zero_positions(len(y0), job['seed'], job['zero_w'])
+        wz = np.ones(len(y0))
+        wz[z] = 0.0
+        y0 = y0.copy()
+        if job.get('nf'):
+            y0[z] = {'nan': np.nan, '+inf': np.inf, '-inf': -np.inf}[job['nf']]
+        job = dict(job, kw=dict(job.get('kw', {}), weights=wz))
     runs = [(str(bs), bs, y0) for bs in job['bs_list']]
     if job.get('perturb') is not None:
         # the same problem with every data value moved by about one unit in the last place (three random
